@@ -7,7 +7,7 @@ from . import common as C
 from . import core
 from . import asmdiff as A
 
-FAULTS = ["unknown-directive", "bad-char", "undefined", "range-now", "range-link", "range-link", "unsolved-link", "assert-now", "assert-link", "die", "duplicate"]
+FAULTS = ["unknown-directive", "bad-char", "prefix-op", "undefined", "range-now", "range-link", "range-link", "unsolved-link", "assert-now", "assert-link", "die", "duplicate"]
 
 
 def filler(rng):
@@ -37,7 +37,29 @@ def fault_line(rng, kind, uniq):
         return [f"{pad}@bogus{uniq} 1"], (0, len(pad) + 1), []
     if kind == "bad-char":
         pre = f"{pad}@db 1, "
-        return [pre + rng.choice("`[]") + " 2"], (0, len(pre) + 1), []
+        ch = rng.choice("`[]==")
+        # (a lone `=` is only recognised as bad once the character after it has been read: in the
+        # middle of a line and as the last character of a line)
+        return [pre + ch + rng.choice([" 2", "", "2"])], (0, len(pre) + 1), []
+    if kind == "prefix-op":
+        # the offending expression begins with a prefix operator (possibly continued on the next line)
+        op = rng.choice(["-", "!", "~", "<", ">", "+"])
+        site = rng.randrange(5)
+        if site == 0:
+            pre = f"{pad}@db 1, "
+            return [pre + "- 2"], (0, len(pre) + 1), []
+        if site == 1:
+            pre = f"{pad}  lda #"
+            return [pre + "-2"], (0, len(pre) + 1), []
+        if site == 2:
+            pre = f"{pad}@assert "
+            return [pre + "! 1"], (0, len(pre) + 1), []
+        if site == 3:
+            pre = f"{pad}@assert "
+            return [pre + "! \\", "      opl" + str(uniq)], (0, len(pre) + 1), [f"@defl opl{uniq}, 3"]
+        pre = f"{pad}@dw 2, "
+        body = {"-": f"- opw{uniq}", "!": f"! opw{uniq} + $10000", "~": f"~ opw{uniq}", "<": f"< opw{uniq} + $10000", ">": f"> opw{uniq} + $10000", "+": f"+ opw{uniq} + $10000"}[op]
+        return [pre + body], (0, len(pre) + 1), [f"@defl opw{uniq}, 1"]
     if kind == "undefined":
         pre = f"{pad}@dw 7 + "
         return [pre + f"nowhere{uniq}"], (0, len(pre) + 1), []
@@ -168,7 +190,7 @@ def run(tier, seed):
             got = (im.get("file"), im.get("line"), im.get("col"))
             if got != expected:
                 bad = f"diagnostic points at {got}, the offending token is at {expected}"
-            elif kind not in ("undefined", "range-link", "assert-link", "unsolved-link"):
+            elif kind not in ("undefined", "range-link", "assert-link", "unsolved-link", "prefix-op"):
                 gotchain = [(f, int(l), int(c)) for f, l, c in im.get("chain", [])]
                 if gotchain != chain:
                     bad = f"include chain {gotchain} differs from the including locations {chain}"
@@ -185,7 +207,7 @@ def run(tier, seed):
     return chk.finish(
         checker_cmd="cd /verif/lean && lake build Az65.Thm.C14 && #print axioms audit",
         trusted_base=C.TRUSTED,
-        rule="case = (a) random text over a token/whitespace/comment/continuation/multi-byte alphabet: every token's (line, column) from the real Lexer vs the Model; (b) multi-file program (include depth 0..3, root outside the working directory) with one fault of ten kinds (link-time range faults at seven kinds of operand site) planted at a known random position among blank lines, comments, continued lines and multi-line strings: file:line:col and the include chain parsed from the error text vs the planted position; distinct = distinct texts / (kind, depth, position)")
+        rule="case = (a) random text over a token/whitespace/comment/continuation/multi-byte alphabet: every token's (line, column) from the real Lexer vs the Model; (b) multi-file program (include depth 0..3, root outside the working directory) with one fault of eleven kinds (incl. expressions that begin with a prefix operator; a lone `=`) (link-time range faults at seven kinds of operand site) planted at a known random position among blank lines, comments, continued lines and multi-line strings: file:line:col and the include chain parsed from the error text vs the planted position; distinct = distinct texts / (kind, depth, position)")
 
 
 def replay(path):
